@@ -229,6 +229,7 @@ class Z3Dom:
         self.decl_index = {}     # z3 decl name -> (ident, component)
         self.probe_stack = []
         self.known_cache = {}
+        self.str_codes = {}
         self.loop_params = []    # active summarisation variables
         self.notes = []
         self.pc_getter = lambda: []
@@ -414,6 +415,84 @@ class Z3Dom:
             return B(z3.Bool(self.fresh_name("oor")))
         return self.fresh_real("oor")
 
+    # ---- finite enumerations (None / bools / strings) as integer codes
+    def code_of(self, v):
+        if v is None:
+            return 0
+        if v is False:
+            return 1
+        if v is True:
+            return 2
+        if isinstance(v, str):
+            if v not in self.str_codes:
+                self.str_codes[v] = 10 + len(self.str_codes)
+            return self.str_codes[v]
+        raise Unsupported("no enumeration code for %r" % (v,))
+
+    def enum(self, name, choices):
+        """a symbolic element of ``choices``"""
+        from .values import Enum
+        c = z3.Int(name)
+        codes = [self.code_of(x) for x in choices]
+        self.inputs.append(("enum", name, (c, dict((self.code_of(x), x) for x in choices))))
+        return Enum(R(c), name), z3.Or([c == k for k in codes])
+
+    # ---- opaque (uninterpreted) functions of arbitrary argument lists
+    def key_terms(self, v):
+        """z3 terms identifying an argument of an opaque function"""
+        from .values import Enum
+        if v is None or isinstance(v, (bool, str)):
+            return [z3.RealVal(self.code_of(v))]
+        if isinstance(v, Enum):
+            return [_real(zconst(v.code))]
+        if isinstance(v, (int, Fraction, R)):
+            return [_real(zconst(v))]
+        if isinstance(v, Cx):
+            return [_real(zconst(v.re)), _real(zconst(v.im))]
+        if isinstance(v, (Arr, Arr2)):
+            if v.ident is None:
+                raise Unsupported("array without identity passed to an opaque function")
+            return [_real(zconst(v.ident))]
+        if isinstance(v, (tuple, list)):
+            out = []
+            for x in v:
+                out += self.key_terms(x)
+            return out
+        if isinstance(v, dict):
+            out = []
+            for k in sorted(v):
+                out += self.key_terms(v[k])
+            return out
+        raise Unsupported("cannot key %r for an opaque function" % type(v).__name__)
+
+    def opaque_real(self, name, keys, extra=()):
+        ks = list(keys) + [_real(zconst(e)) for e in extra]
+        f = z3.Function(name, *([z3.RealSort()] * len(ks) + [z3.RealSort()]))
+        return R(f(*ks)) if ks else R(z3.Real(name))
+
+    def opaque_int(self, name, keys):
+        f = z3.Function(name, *([z3.RealSort()] * len(keys) + [z3.IntSort()]))
+        return R(f(*keys)) if keys else R(z3.Int(name))
+
+    def opaque_array(self, name, keys, n, dtype="float"):
+        """array whose entries are an uninterpreted function of (keys, index)"""
+        if dtype == "complex":
+            fn = lambda i: Cx(self.opaque_real(name + "_re", keys, (i,)), self.opaque_real(name + "_im", keys, (i,)))
+        else:
+            fn = lambda i: self.opaque_real(name, keys, (i,))
+        a = Arr(n, fn=fn, dtype=dtype)
+        a.ident = self.opaque_int(name + "_id", keys)
+        return a
+
+    def opaque_array2(self, name, keys, r, c, dtype="float"):
+        if dtype == "complex":
+            fn = lambda i, j: Cx(self.opaque_real(name + "_re", keys, (i, j)), self.opaque_real(name + "_im", keys, (i, j)))
+        else:
+            fn = lambda i, j: self.opaque_real(name, keys, (i, j))
+        a = Arr2(r, c, fn=fn, dtype=dtype)
+        a.ident = self.opaque_int(name + "_id", keys)
+        return a
+
     def known(self, cond):
         if isinstance(cond, bool):
             return cond
@@ -474,8 +553,11 @@ class Z3Dom:
             fn = lambda i: R(fre(zconst(i)))
         self.inputs.append(("array", name, (n, dtype, fre, fim)))
         if isinstance(n, int) and n <= self.materialise_limit:
-            return Arr(n, items=[fn(i) for i in range(n)], dtype=dtype)
-        return Arr(n, fn=fn, dtype=dtype)
+            a = Arr(n, items=[fn(i) for i in range(n)], dtype=dtype)
+        else:
+            a = Arr(n, fn=fn, dtype=dtype)
+        a.ident = R(z3.Int(name + "!id"))
+        return a
 
     def input_array2(self, name, r, c, dtype="float"):
         fre = z3.Function(name + "_re", z3.IntSort(), z3.IntSort(), z3.RealSort())
